@@ -4,6 +4,7 @@ open PhQVerif Generated
 #print axioms PhQVerif.Props.C04.twins_identical
 #print axioms PhQVerif.Props.C04.compound_fold
 #print axioms PhQVerif.Props.C04.stdmath_exact
+#print axioms PhQVerif.Props.C04.precision_preserved
 #eval s!"COUNT C04.componentwise_operator_entries {(quantityEntries.filter (·.isComponentwiseOp)).length}"
 #eval s!"COUNT C04.twin_pairs {Twins.rows.length}"
 #eval s!"COUNT C04.compound_pairs {Compound.rows.length}"
